@@ -295,11 +295,10 @@ Theorem law_holds_after_every_history :
   forall (op : copyop) (c : cls) (hs : list hop),
     NoDup (map fst c) ->
     (forall k d, In (k, d) c -> simple (td_type d) = true) ->
-    copies_all op c = false ->
     (forall k d, In (k, d) c -> td_type d = TAny \/ td_type d = TReadOnly -> law_mode op d = CDeep -> effective op d = CDeep) ->
     law op c (model_obs op c hs) = [].
 Proof.
-  intros op c hs ND SI NA DD. rewrite model_obs_is_obs_of.
+  intros op c hs ND SI DD. rewrite model_obs_is_obs_of.
   pose proof (hrun_wfs c ND SI hs [] first_id (wfs_empty c)) as [N H].
   apply law_holds_on_copy. constructor; try assumption.
   intros k v G. destruct (H k v G) as [d [A [B [C _]]]]. exists d. split; [exact A|]. split; [exact B | exact C].
